@@ -1,7 +1,4 @@
 // Ghost vocabulary shared by all contracts (DESIGN.md section 4). Spec/proof code only.
-use vstd::prelude::*;
-#[allow(unused_imports)]
-use std::ops::Range;
 
 verus! {
 
@@ -18,6 +15,7 @@ pub spec const C_CSQF: int = 4;    // ':' '/' '?' '#'
 pub spec const C_AT: int = 5;      // '@'
 pub spec const C_RB: int = 6;      // ']'
 pub spec const C_SLASH: int = 7;   // '/'
+pub spec const C_CS: int = 8;      // ':' '/'
 
 pub open spec fn cls(c: int, b: u8) -> bool {
     if c == C_COLON { b == 58 }
@@ -28,6 +26,7 @@ pub open spec fn cls(c: int, b: u8) -> bool {
     else if c == C_AT { b == 64 }
     else if c == C_RB { b == 93 }
     else if c == C_SLASH { b == 47 }
+    else if c == C_CS { b == 58 || b == 47 }
     else { false }
 }
 
